@@ -83,13 +83,13 @@ int main(int argc, char** argv) {
 
   // ---- chunked deque ----------------------------------------------------
   {
-    auto c = GDequeCase<Elem, 2>::make(4, 6);
+    auto c = GDequeCase<Elem, 2>::make(4, 8);
     c.run  = gdeque_run<Elem, 2>;
     bfs.push_back(c);
-    c     = GDequeCase<Elem, 3>::make(4, 7);
+    c     = GDequeCase<Elem, 3>::make(4, 8);
     c.run = gdeque_run<Elem, 3>;
     bfs.push_back(c);
-    c        = GDequeCase<int, 2>::make(4, 6);
+    c        = GDequeCase<int, 2>::make(4, 7);
     c.run    = gdeque_run<int, 2>;
     c.weight = 2;
     bfs.push_back(c);
@@ -104,16 +104,16 @@ int main(int argc, char** argv) {
   bfs.push_back(mk("ConcurrentFixedSizeBag<Elem,3> used by one thread",
                    CBAG_NOPS, CBAG_OPS, cbag_run, 5, 8));
   // ---- chunked singly linked list -----------------------------------------
-  bfs.push_back(GslistCase<2>::make(5, 8));
-  bfs.push_back(GslistCase<3>::make(5, 8));
+  bfs.push_back(GslistCase<2>::make(5, 10));
+  bfs.push_back(GslistCase<3>::make(5, 10));
   // ---- flat map -----------------------------------------------------------
   bfs.push_back(mk("flat_map<int,Elem> vs std::map", FM_NOPS, FM_OPS,
-                   FlatMapCase::run, 4, 7, 2));
+                   FlatMapCase::run, 4, 8, 2));
   // ---- POD array ------------------------------------------------------------
   bfs.push_back(mk("PODResizeableArray<int> vs std::vector", POD_NOPS, POD_OPS,
-                   PodCase::run, 4, 6, 2));
+                   PodCase::run, 4, 8, 2));
   bfs.push_back(mk("PODResizeableArray<int> push_back of own element", 4,
-                   PODA_OPS, poda_run, 4, 6));
+                   PODA_OPS, poda_run, 4, 8));
   // ---- lazy storage, optional ---------------------------------------------
   bfs.push_back(mk("LazyArray<Elem,3> manual lifetime", LA_NOPS, LA_OPS, la_run,
                    4, 7));
@@ -123,24 +123,24 @@ int main(int argc, char** argv) {
                    opt_run, 4, 7));
   // ---- priority queues -------------------------------------------------------
   bfs.push_back(PqCase<galois::MinHeap<int>, false, std::less<int>, true>::make(
-      "MinHeap<int>", 5, 7));
+      "MinHeap<int>", 5, 9));
   bfs.push_back(
       PqCase<galois::MinHeap<int, std::greater<int>>, false, std::greater<int>,
-             true>::make("MinHeap<int,std::greater>", 5, 7));
+             true>::make("MinHeap<int,std::greater>", 5, 9));
   bfs.push_back(PqCase<galois::ThreadSafeMinHeap<int>, false, std::less<int>,
-                       true>::make("ThreadSafeMinHeap<int>", 5, 7));
+                       true>::make("ThreadSafeMinHeap<int>", 5, 9));
   bfs.push_back(PqCase<galois::ThreadSafeOrderedSet<int>, true, std::less<int>,
-                       true>::make("ThreadSafeOrderedSet<int>", 5, 7));
+                       true>::make("ThreadSafeOrderedSet<int>", 5, 9));
   bfs.push_back(PqCase<galois::MinHeap<int>, false, std::less<int>,
                        false>::make("MinHeap<int>", 2, 3));
   bfs.push_back(PqCase<galois::ThreadSafeOrderedSet<int>, true, std::less<int>,
                        false>::make("ThreadSafeOrderedSet<int>", 2, 3));
   // ---- insert bag -------------------------------------------------------------
-  bfs.push_back(InsertBagCase<56>::make(4, 6));
-  bfs.push_back(InsertBagCase<64>::make(4, 7));
+  bfs.push_back(InsertBagCase<56>::make(4, 8));
+  bfs.push_back(InsertBagCase<64>::make(4, 8));
   // ---- large array ----------------------------------------------------------
   bfs.push_back(
-      mk("LargeArray<Elem> allocation x lifetime", LG_NOPS, LG_OPS, lg_run, 4, 5, 3));
+      mk("LargeArray<Elem> allocation x lifetime", LG_NOPS, LG_OPS, lg_run, 4, 7, 3));
 
   // ---- enumerations -----------------------------------------------------------
   {
@@ -166,6 +166,17 @@ int main(int argc, char** argv) {
     c.count    = PqRange::count;
     c.run      = PqRange::run;
     c.describe = PqRange::describe;
+    en.push_back(c);
+  }
+  {
+    sx::EnumCase c;
+    c.name     = "Pair / TupleOfThree vs std::pair / std::tuple";
+    c.count    = [](bool) { return (uint64_t)27; };
+    c.run      = tuple_run;
+    c.describe = [](uint64_t i, bool) {
+      return "values " + std::to_string(i % 3) + "," +
+             std::to_string((i / 3) % 3) + "," + std::to_string((i / 9) % 3);
+    };
     en.push_back(c);
   }
   {
